@@ -42,6 +42,7 @@ type Engine struct {
 	Lemmas    []*Lemma
 	Schemas   map[string]string
 	Globals   []*GlobalSpec
+	Writers   []*WritersSpec
 	Ghosts    []*GhostSpec
 
 	Obls       []*Obligation
@@ -81,6 +82,8 @@ type Engine struct {
 	compFields map[string]compFieldInfo
 	immutCache map[string]bool
 	allFuncs   map[*ssa.Function]bool
+	ifacePreds map[string]types.Type
+	boxedTypes map[string]types.Type
 }
 
 type BoundedCheck struct {
